@@ -1,6 +1,7 @@
 import Hgxv.Proofs.C03Cor
 import Hgxv.Proofs.C03Ref
 import Hgxv.Proofs.C03Keep
+import Hgxv.Proofs.C03Full
 /-! # C03 - TemporalHypergraph keeps (time, hyperedge) records; windows / snapshots / aggregate agree
 
 Model: `Hgxv/Model/C03.lean` (mirror of `hypergraphx/core/temporal_hypergraph.py` after the `fix:` commits of branch
@@ -255,3 +256,84 @@ example : (abs keepStore).recs =
 example : shrinkKey 1 (5, [1, 2, 3]) = (5, [2, 3]) ∧ shrinkKey 1 (6, [1]) = (6, []) := by decide
 example : (abs (removeNode keepStore 1 true).1).recs = [((5, [2, 3]), (20, [(0, 1)])), ((6, [4]), (2, []))] := by decide
 example : answer (removeNode keepStore 1 true).1 (.incident 2 none none) = .recs [(5, [2, 3])] := by decide
+
+/-! ## the whole object: incidence metadata, `copy()` and the other routes from one object to another
+(strengthening round d; `Obj` = `Store` + `_incidences_metadata`, `FState`/`fstep`/`frun` = slots of whole objects with
+the incidence calls and the routes `Route.copy` (`copy()`, deepcopy, pickle of the object: every table) and `Route.tables`
+(`expose_data_structures` → `populate_from_dict`, the binary file format: every table but the incidence table)) -/
+
+/-- **Projection.** Forgetting the incidence tables of a full history gives exactly the run of its base calls on the
+machine of the theorems above (both routes become its slot copy, incidence calls and queries vanish): incidence metadata
+never influence a record, a weight, a listing, a window, a snapshot or an aggregate, and every theorem above holds for
+the base of every object of a full history - objects obtained through either route included (`C03_full_reachable`). -/
+theorem C03_full_projection (ops : List FOp) :
+    baseState (frun [] ops) = run [] (ops.filterMap FOp.toBase?) := frun_base ops []
+
+theorem C03_full_reachable (o : Obj) (h : FReachable o) : Reachable o.base := freachable_base h
+
+/-- **`copy()` is complete.** The object the copy route puts into slot `j` IS the content of slot `i` - every table,
+the incidence table included - so every query whatsoever (base queries, `get_incidence_metadata`,
+`get_all_incidences_metadata`) is answered on the copy as on the original; the original is still there. -/
+theorem C03_copy_complete (st : FState) (i j : Nat) (o : Obj) (h : get? st i = some o) :
+    get? (fstep st (.derive .copy i j)).1 j = some o ∧
+    (∀ q, (fstep (fstep st (.derive .copy i j)).1 (.query j q)).2 = (fstep st (.query i q)).2) ∧
+    (i ≠ j → get? (fstep st (.derive .copy i j)).1 i = some o) := by
+  have h1 : get? (fstep st (.derive .copy i j)).1 j = some o := fstep_derive_get st .copy i j o h
+  refine ⟨h1, ?_, ?_⟩
+  · intro q; simp only [fstep, h] at h1 ⊢; rw [h1]
+  · intro hij
+    rw [fstep_other st (.derive .copy i j) i (by simp [FOp.target]; exact fun e => hij e.symm)]; exact h
+
+/-- **The serialisation route** (`populate_from_dict(expose_data_structures())`, binary save / load) carries every table
+except the incidence table: every base query is answered as on the source, `get_all_incidences_metadata()` is empty and
+every `get_incidence_metadata` raises.  (This is why `copy()` must not be built on it - seeded change C03-d2.) -/
+theorem C03_tables_route (st : FState) (i j : Nat) (o : Obj) (h : get? st i = some o) :
+    get? (fstep st (.derive .tables i j)).1 j = some { base := o.base } ∧
+    (∀ q, ({ base := o.base } : Obj).answer (.base q) = o.answer (.base q)) ∧
+    ({ base := o.base } : Obj).answer .allInc = .incs [] ∧
+    (∀ raw t n, ({ base := o.base } : Obj).answer (.inc raw t n) = .base .rej) := by
+  refine ⟨fstep_derive_get st .tables i j o h, fun q => rfl, rfl, ?_⟩
+  intro raw t n
+  simp only [Obj.answer, getInc]
+  cases recKey { base := o.base } raw t <;> rfl
+
+/-- **Independence of the objects.** Calls that write other slots (any number of them, of any kind - a call on the
+original after the copy was taken, a call on the copy, further copies elsewhere) leave the object of slot `k` as it is,
+incidence table included. -/
+theorem C03_copy_independent (st : FState) (ops : List FOp) (k : Nat) (hk : ∀ op ∈ ops, op.target ≠ some k) :
+    get? (frun st ops) k = get? st k := frun_other ops st k hk
+
+/-- **The incidence table** is written by `set_incidence_metadata` only: every other public mutating call - removal of
+the record, removal of a node, `clear()` included, as in the code - leaves it as it is; `set_incidence_metadata` leaves all
+other tables as they are, is accepted exactly when `(time, node set)` is a record (the node order of the hyperedge is
+irrelevant, the node is not looked at), then the entry reads back and no other entry changes; rejected, it changes nothing. -/
+theorem C03_incidence_table (o : Obj) :
+    (∀ op, (o.apply (.base op)).1.inc = o.inc) ∧
+    (∀ raw t n md, (setInc o raw t n md).1.base = o.base) ∧
+    (∀ raw t n md k, recKey o raw t = some k →
+      (setInc o raw t n md).2 = .ok ∧ getInc (setInc o raw t n md).1 raw t n = some md ∧
+      ∀ p, p ≠ (k, n) → get? (setInc o raw t n md).1.inc p = get? o.inc p) ∧
+    (∀ raw t n md, recKey o raw t = none → setInc o raw t n md = (o, .rej)) ∧
+    (∀ r1 r2 : List Nat, r1.Perm r2 → ∀ t n md, setInc o r1 t n md = setInc o r2 t n md) := by
+  refine ⟨fun op => rfl, setInc_base o, ?_, setInc_rej o, ?_⟩
+  · intro raw t n md k hk
+    obtain ⟨h1, _, h3, h4⟩ := setInc_ok o raw t n md k hk
+    exact ⟨h1, h3, h4⟩
+  · intro r1 r2 hp t n md
+    simp only [setInc, recKey_perm o r1 r2 hp t]
+
+/-! non-vacuity (`fullOps`: two records, three incidence entries - one for a node outside the hyperedge -, a rejected
+one, an in-place edit, both routes, removal of the record on the original, later calls on the two derived objects) -/
+
+example : ∀ op ∈ fullOps, op.WF := by decide
+example : FReachable (fullObj 1) := ⟨fullOps, by decide, 1, by decide⟩
+example : (fullObj 0).inc = [(((3, [1, 2]), 2), [(0, 5), (1, 4)]), (((3, [1, 2, 3]), 7), [(1, 1)])] := by decide
+example : (fullObj 1).inc = (fullObj 0).inc ++ [(((3, [1, 2]), 1), [])] := by decide
+example : (fullObj 2).inc = [] ∧ edgeKeys (fullObj 2).base = [(3, [1, 2]), (3, [1, 2, 3]), (0, [5])] ∧ (fullObj 2).base.nextId = 3 := by decide
+/-- the entry of a removed record stays in the table (as in the code) but cannot be read while the record is absent -/
+example : edgeKeys (fullObj 0).base = [(3, [1, 2, 3])] ∧ getInc (fullObj 0) [1, 2] (.int 3) 2 = none ∧
+    getInc (fullObj 1) [2, 1] (.int 3) 2 = some [(0, 5), (1, 4)] := by decide
+/-- witness for the seeded change C03-d2: the two routes differ on an object with an incidence entry -/
+example : derive (fullObj 1) .copy ≠ derive (fullObj 1) .tables := by decide
+example : recKey (fullObj 1) [2, 1] (.int 3) = some (3, [1, 2]) ∧ recKey (fullObj 1) [2, 1] (.int 4) = none := by decide
+example : baseState (frun [] fullOps) = run [] (fullOps.filterMap FOp.toBase?) := C03_full_projection fullOps
